@@ -1254,6 +1254,8 @@ class MiniInt:
     def _opaque(self, a, env):
         a = strip(a)
         ct = (a.get("ct") or "")
+        if self.mem is not None and ct.replace("const ", "").replace(" ", "") in ("char*", "char*&"):
+            return False          # a position in the modelled buffer
         return not any(ct.replace("const ", "").strip() == x for x in ("int", "bool", "unsigned int", "long", "unsigned long", "char", "short", "double"))
 
     def call(self, g, args, depth=0):
